@@ -157,7 +157,7 @@ func frontEnds(meta *common.Meta, obs []synthObs, versions []string, outDir stri
 	lineRE := regexp.MustCompile(`(?m)^(?:\./)?(?:[^\s:]*/)?(u\d+)/synth\.go:\d+:\d+: (\w+): (.*)$`)
 	var mu sync.Mutex
 	var wg sync.WaitGroup
-	sem := make(chan struct{}, 8)
+	sem := make(chan struct{}, 4)
 	for _, j := range jobs {
 		wg.Add(1)
 		go func(j job) {
@@ -173,7 +173,7 @@ func frontEnds(meta *common.Meta, obs []synthObs, versions []string, outDir stri
 				args = append(args, "-go="+j.vs)
 			}
 			args = append(args, "./...")
-			out, errOut, _, err := common.RunSplit(180*time.Second, dir, common.GoEnv(), filepath.Join(bin, j.exe), args...)
+			out, errOut, _, err := common.RunSplit(900*time.Second, dir, common.GoEnv(), filepath.Join(bin, j.exe), args...)
 			mu.Lock()
 			defer mu.Unlock()
 			if err != nil {
